@@ -33,7 +33,7 @@ FLOOR_KEYS = ["op:set_laws:u_laws_None:new_free", "op:set_laws:u_laws_None:new_b
 
 
 def floors(ctx):
-    f = {"evaluations": 20000 if ctx.tier == "quick" else 200000, "histories": 1000, "rule_attribute_checks": 100, "whitelists_passed_as_proxy": 10}
+    f = {"evaluations": 20000 if ctx.tier == "quick" else 200000, "histories": 1000, "rule_attribute_checks": 100, "whitelists_passed_as_proxy": 10, "bursts": 500}
     for k in FLOOR_KEYS:
         f[k] = 1
     return f
